@@ -477,7 +477,10 @@ impl Wal {
             }
 
             let mut segment = WalSegment::open(&segment_path, i)?;
+            let segment_len = segment.offset();
+            let mut valid_len = 0u64;
             while let Ok((header, page_data)) = segment.read_frame() {
+                valid_len += (WAL_FRAME_HEADER_SIZE + PAGE_SIZE) as u64;
                 if header.page_no >= storage.page_count() {
                     let required_pages = header.db_size.max(header.page_no + 1);
                     storage.grow(required_pages).wrap_err_with(|| {
@@ -498,6 +501,12 @@ impl Wal {
                 page_mut.copy_from_slice(&page_data);
                 frames_applied += 1;
             }
+
+            // a torn or corrupt frame ends the log: frames of later segments come after it
+            // in write order and must not be applied
+            if valid_len != segment_len {
+                break;
+            }
         }
 
         Ok(frames_applied)
@@ -514,8 +523,11 @@ impl Wal {
             }
 
             let mut segment = WalSegment::open(&segment_path, i)?;
+            let segment_len = segment.offset();
+            let mut valid_len = 0u64;
 
             while let Ok((header, page_data)) = segment.read_frame() {
+                valid_len += (WAL_FRAME_HEADER_SIZE + PAGE_SIZE) as u64;
                 if header.file_id != file_id {
                     continue;
                 }
@@ -539,6 +551,10 @@ impl Wal {
 
                 page_mut.copy_from_slice(&page_data);
                 frames_applied += 1;
+            }
+
+            if valid_len != segment_len {
+                break;
             }
         }
 
